@@ -216,6 +216,19 @@ CHECKS["C11"] = dict(
          "back); .r shares the reader with .rs and is not driven separately.",
     design_ref="DESIGN.md section 5 C11")
 
+CHECKS["C12"] = dict(
+    technique="TLA+ judgement of parse observations (ParseAbs.tla: work within a fixed polynomial Budget(n), identical second parse, variables "
+              "untouched, same evaluation); ParseGen.tla enumerates all token strings (TLC); prog(text) of the real parser runs under "
+              "sys.setprofile counting every call; the recorded observations are judged by TLC (ParseTrace.tla)",
+    text="All strings of <= 2 tokens and a seeded sample (thorough: all) of 3-token strings over a 44-token alphabet - complete for strings "
+         "starting with a parse-time function - plus single and double token-level edits of the 19609 lines of the .kg corpus (all single "
+         "edits of lines with .comment/.module/conditionals) and generated inputs up to 7200 characters: prog(text) must return or raise "
+         "within Budget(n) = 2000+400n+40n^2 calls, parse identically again in the same module, leave all variables unchanged, and (token "
+         "strings) evaluate to the same result from either parse.",
+    note="Trusted: TLC, sys.setprofile call counting (a loop that calls nothing is caught by the 6 s wall-clock backstop only). "
+         "Strings of 4+ arbitrary tokens are covered only through corpus edits and generated inputs.",
+    design_ref="DESIGN.md section 5 C12", category="exploration")
+
 NOT_YET = {}
 
 
